@@ -55,6 +55,13 @@ CLAIMED = {
     note="Trusted: SHAKE256 depends on every absorbed byte; OsRng stateless; abstract interpreter soundness. Fault indices 0 and 1 are enumerated (no entry point issues more than two requests).",
     technique="call-graph who-may-call rule + abstract interpretation with generator fault injection and byte-level taint of absorbed items",
     engine="driver-ai"),
+ "C15": dict(
+    category="proof",
+    text="(i) mont_reduce, partial_reduce32, full_reduce32, center_mod analysed once over their whole documented input ranges: no overflow, all self-checks discharged, result in the documented range and carrying the linear congruence (a*2^-32, a, a, m) modulo q; partial_reduce64 on x*2^32 for all |x| below its bound by bisection into proved cells. (ii) Power2Round, Decompose/HighBits/LowBits (both gamma2), UseHint (h=0,1), mod+-, CoeffFromThreeBytes, CoeffFromHalfByte: the input is a symbol, the domain is bisected inside the driver until each cell's abstract result is an exact affine function c*x+d; every cell is then compared with the FIPS definition (lib/spec.py): no definition breakpoint inside, equal at both ends => equal on the cell; the cells tile the whole domain (all of Z_q, the i32 precondition range, all 2^24 byte triples, all 16 half bytes). MakeHint: HighBits exact + structural two-HighBits rule + evaluated points.",
+    design_ref="DESIGN.md §4 C15",
+    note="Trusted: abstract interpreter soundness; lib/spec.py transcription of Alg. 14, 15, 35-40; spec breakpoint tables (re-derived by brute force in the thorough tier). MakeHint's two-dimensional domain is covered structurally, not cell by cell.",
+    technique="abstract interpretation with exact affine forms + piecewise-affine domain partitioning against the FIPS definitions",
+    engine="driver-ai"),
 }
 NA_REASON = "check not built yet in this round (static-analysis engine under construction); see DESIGN.md §8 build order"
 
@@ -85,7 +92,7 @@ man = {
  "engines": [
    {"name": "cfg-matrix", "path": "checks/c17.py", "serves_properties": ["C17"], "kind_free_text": "feature-configuration matrix: rustc lints + MIR fingerprints"},
    {"name": "driver-facts", "path": "driver/src/facts.rs", "serves_properties": ["C16", "C17"], "kind_free_text": "type/layout/drop-glue/call-graph facts"},
-   {"name": "driver-ai", "path": "driver/src/ai/", "serves_properties": ["C07", "C10", "C12", "C13", "C18"], "kind_free_text": "abstract interpreter over monomorphic MIR"},
+   {"name": "driver-ai", "path": "driver/src/ai/", "serves_properties": ["C07", "C10", "C12", "C13", "C15", "C18"], "kind_free_text": "abstract interpreter over monomorphic MIR"},
    {"name": "driver", "path": "driver/", "serves_properties": sorted(CLAIMED), "kind_free_text": "rustc_private driver over type-checked monomorphic MIR (facts, call graph, abstract interpretation)"},
  ],
  "checks": checks,
